@@ -942,6 +942,11 @@ def emit_fn(unit, loc, dlines, tmpl_where):
             trusted = True
         elif head == 'attr':
             attrs.append(s[5:])
+        elif head == 'annotate_closures':
+            mm = re.match(r'annotate_closures\s+`(.*)`\s*->\s*`(.*)`\s*$', s)
+            if not mm:
+                raise Unsupported('%s: bad annotate_closures %r' % (tmpl_where, s))
+            sections.append(['annotate_closures', (mm.group(1), mm.group(2)), []])
         elif head == 'desugar_q':
             mm = re.match(r'desugar_q\s+`(.*)`\s*$', s)
             if not mm:
@@ -1000,6 +1005,39 @@ def emit_fn(unit, loc, dlines, tmpl_where):
                 new = '(match %s { Ok(vx_v) => vx_v, Err(vx_e) => return Err(core::convert::From::from(vx_e)) })' % text[m.start():m.end() - 1].strip()
                 unit.rule_log.append({'rule': 'R12', 'before': norm_ws(m.group(0)), 'after': norm_ws(new)[:100], 'where': ctx})
                 text = text[:m.start()] + new.replace('\n', ' ') + '\n' * m.group(0).count('\n') + text[m.end():]
+    for sec in sections:
+        if sec[0] == 'annotate_closures':
+            # R16: `|x| EXPR` (single-expression closure argument) -> `|x: T| -> (vx_r: U) ensures vx_r == (EXPR) { EXPR }`
+            # the closure is unchanged; the annotation states its result so that callers can use it
+            tin, tout = sec[1]
+            pos = 0
+            while True:
+                tm = code_mask(text)
+                mm = next((m for m in re.finditer(r'\|\s*([A-Za-z_]\w*)\s*\|\s*', text) if m.start() >= pos and tm[m.start()]), None)
+                if not mm:
+                    break
+                j = mm.end()
+                depth = 0
+                while j < len(text):
+                    if tm[j]:
+                        c = text[j]
+                        if c in '([{':
+                            depth += 1
+                        elif c in ')]}':
+                            if depth == 0:
+                                break
+                            depth -= 1
+                        elif c == ',' and depth == 0:
+                            break
+                    j += 1
+                expr = text[mm.end():j].strip()
+                if expr.startswith('{') or '->' in text[mm.start():mm.end()]:
+                    pos = mm.end()
+                    continue
+                new = '|%s: %s| -> (vx_r: %s) ensures vx_r == (%s) { %s }' % (mm.group(1), tin, tout, norm_ws(expr), expr)
+                unit.rule_log.append({'rule': 'R16', 'before': norm_ws(text[mm.start():j])[:80], 'after': norm_ws(new)[:100], 'where': ctx})
+                text = text[:mm.start()] + new + text[j:]
+                pos = mm.start() + len(new)
     sig_end, has_body = _find_fn_parts(text)
     sig = text[:sig_end]
     body = text[sig_end:]
